@@ -136,11 +136,36 @@ class Projector:
         c = {"p": [self.I.row(atoms.positions, i) for i in range(len(atoms))], "c": self.I.tok(b"cell|" + np.asarray(atoms.cell.array).tobytes() + atoms.pbc.tobytes())}
         if remember:
             key = repr(c) + atoms.numbers.tobytes().hex()
-            if not any(k == key for k, _, _ in self.recent):
+            hit = next((t for t in self.recent if t[0] == key), None)
+            if hit is not None:
+                # seen again: most recent again.  (Eviction is by last sight, not by first sight: the configuration the
+                # context saved is seen at the end of every rejected trial and must stay the owner of the saved energy
+                # however many trials are rejected in a row, see DESIGN.md Appendix A.)
+                self.recent.remove(hit)
+                self.recent.append(hit)
+            else:
                 self.recent.append((key, c, atoms.copy()))
                 if len(self.recent) > self.window:
                     self.recent.pop(0)
         return c
+
+    def remember_saved(self, atoms, ctx):
+        """the configuration the context holds as its saved state (last_positions, last_cell) is a candidate owner of
+        the saved energies for as long as the context holds it, whether or not the atoms were seen in it recently"""
+        lp = getattr(ctx, "last_positions", None)
+        if lp is None or np.shape(lp) != np.shape(atoms.positions):
+            return
+        if len(np.ravel(getattr(ctx, "_added_indices", []))) or len(np.ravel(getattr(ctx, "_deleted_indices", []))):
+            return  # mid-exchange: the atoms are not the ones the saved positions belong to
+        try:
+            a = atoms.copy()
+            lc = getattr(ctx, "last_cell", None)
+            if lc is not None:
+                a.set_cell(np.asarray(lc.array if hasattr(lc, "array") else lc), scale_atoms=False)
+            a.positions = np.array(lp, dtype=float)
+        except Exception:  # noqa: BLE001  (a saved state that cannot be put on the atoms owns nothing)
+            return
+        self.cfg_of(a)
 
     def fresh_energy(self, key, atoms, bare=False):
         """from-scratch energy of a configuration: what atoms.get_potential_energy() reports (calculator + the energy of
@@ -243,6 +268,7 @@ class Projector:
         for i in range(n):
             rest = b"".join(k.encode() + b"=" + str(arr[k].dtype).encode() + np.ascontiguousarray(arr[k][i]).tobytes() + b";" for k in others)
             rows.append({"sp": int(arr["numbers"][i]), "pos": I.row(arr["positions"], i), "mom": I.row(mom, i), "rest": I.tok(rest)})
+        self.remember_saved(atoms, ctx)
         cur = self.cfg_of(atoms)
         cons = []
         from ase.constraints import FixAtoms
